@@ -183,7 +183,8 @@ class ModuleGen(object):
             self.spec.features.add('module-docstring')
         n = rng.randint(2, 7)
         for k in range(n):
-            kind = rng.choice(['func', 'afunc', 'deco', 'class', 'class', 'if', 'try', 'main', 'with', 'adeco', 'ctxmgr', 'notmain'])
+            kind = rng.choice(['func', 'afunc', 'deco', 'class', 'class', 'if', 'try', 'main', 'with', 'adeco', 'ctxmgr', 'notmain', 'handler', 'matcharm', 'tryelse',
+                              'forbody'])
             self.spec.features.add('top:' + kind)
             if kind == 'func':
                 self.func('', 'f%d' % k, 'f%d' % k, True)
@@ -205,6 +206,22 @@ class ModuleGen(object):
             elif kind == 'with':
                 out.append('with open(os.devnull) as _f:')
                 self.func('    ', 'w%d' % k, 'w%d' % k, True)
+            elif kind == 'handler':
+                # the pure-Python fallback idiom: the definition sits in an except handler that runs on import
+                out += ['try:', '    raise ImportError("no accelerator")', 'except ImportError:']
+                self.func('    ', 'h%d' % k, 'h%d' % k, True)
+            elif kind == 'matcharm':
+                out += ['match %d:' % k, '    case %d:' % k]
+                self.func('        ', 'ma%d' % k, 'ma%d' % k, True)
+            elif kind == 'tryelse':
+                out += ['try:', '    pass', 'except Exception:', '    pass', rng.choice(['else:', 'finally:'])]
+                self.func('    ', 'te%d' % k, 'te%d' % k, True)
+            elif kind == 'forbody':
+                out.append(rng.choice(['for _i%d in range(1):' % k, 'while True:']))
+                self.func('    ', 'fb%d' % k, 'fb%d' % k, True)
+                if out[-1] == '':
+                    out.pop()
+                out += ['    break', '']
             elif kind == 'notmain':
                 # not the main guard: the block runs on import, its definitions are collected
                 out.append('if %s:' % rng.choice(["__name__ != '__main__'", "'__main__' != __name__", "__name__ is not None",
@@ -304,6 +321,9 @@ OUTCOMES = {
     'pass': (['>>> mark("{id}")', '>>> print("a")', 'a'], 'passed', True),
     'pass_nowant': (['>>> mark("{id}")'], 'passed', True),
     'pass_multi': (['>>> mark("{id}")', '>>> x = [1,', '...      2]', '>>> print(x)', '[1, 2]'], 'passed', True),
+    # a comment in the middle of the doctest that starts like a force-disable marker
+    'pass_marker_comment': (['>>> mark("{id}")', '>>> # failing inputs are reported through the return value',
+                             '>>> # SCRIPT style usage follows', '>>> print("a")', 'a'], 'passed', True),
     'fail_output': (['>>> mark("{id}")', '>>> print("a")', 'b'], 'failed', True),
     'fail_exc': (['>>> mark("{id}")', '>>> raise ValueError("v")'], 'failed', True),
     'fail_late': (['>>> mark("{id}")', '>>> print("a")', 'a', '>>> print("c")', 'd'], 'failed', True),
